@@ -71,6 +71,17 @@ pub struct Case {
     /// method of the app's request (index into METHODS; 0 = POST)
     #[serde(default)]
     pub method: u8,
+    /// how the body is given: 0 = body_bytes, 1 = a reader of known length, 2 = a reader of unknown length
+    #[serde(default)]
+    pub reader: u8,
+}
+fn body_of(c: &Case) -> crux_http::http::Body {
+    let cursor = futures_util::io::Cursor::new(c.body.clone());
+    match c.reader % 3 {
+        0 => crux_http::http::Body::from_bytes(c.body.clone()),
+        1 => crux_http::http::Body::from_reader(cursor, Some(c.body.len())),
+        _ => crux_http::http::Body::from_reader(cursor, None),
+    }
 }
 pub const METHODS: [&str; 6] = ["POST", "GET", "PUT", "DELETE", "PATCH", "OPTIONS"];
 fn method_of(c: &Case) -> crux_http::http::Method {
@@ -197,11 +208,11 @@ impl crux_core::App for App {
                 }
                 match c.api {
                     Api::CapabilitySend => {
-                        attach!(http.request(method_of(&c), c.start.parse().unwrap()).header("x-orig", "1").body_bytes(&c.body), c, log).send(Event::Done);
+                        attach!(http.request(method_of(&c), c.start.parse().unwrap()).header("x-orig", "1").body(body_of(&c)), c, log).send(Event::Done);
                         Command::done()
                     }
                     Api::CapabilityAsync => {
-                        let fut = attach!(http.request(method_of(&c), c.start.parse().unwrap()).header("x-orig", "1").body_bytes(&c.body), c, log).send_async();
+                        let fut = attach!(http.request(method_of(&c), c.start.parse().unwrap()).header("x-orig", "1").body(body_of(&c)), c, log).send_async();
                         caps.compose.spawn(|ctx| async move {
                             let r = fut.await;
                             ctx.update_app(Event::DoneAsync(match r {
@@ -214,7 +225,7 @@ impl crux_core::App for App {
                         });
                         Command::done()
                     }
-                    Api::CommandBuild => attach!(crux_http::command::Http::<Effect, Event>::request(method_of(&c), c.start.parse().unwrap()).header("x-orig", "1").body_bytes(&c.body), c, log).build().then_send(Event::Done),
+                    Api::CommandBuild => attach!(crux_http::command::Http::<Effect, Event>::request(method_of(&c), c.start.parse().unwrap()).header("x-orig", "1").body(body_of(&c)), c, log).build().then_send(Event::Done),
                 }
             }
             Event::Done(r) => {
@@ -482,16 +493,17 @@ pub fn strategy() -> BoxedStrategy<Case> {
         prop::collection::vec(any::<u8>(), 1..6),
         graph,
         prop_oneof![3 => Just(0u8), 2 => 1u8..6],
+        prop_oneof![3 => Just(0u8), 1 => Just(1u8), 1 => Just(2u8)],
     )
-        .prop_map(|(api, client_mws, mws, start, body, graph, method)| Case { client_mws: if api == Api::CommandBuild { vec![] } else { client_mws }, api, mws, start, body, graph, method })
+        .prop_map(|(api, client_mws, mws, start, body, graph, method, reader)| Case { client_mws: if api == Api::CommandBuild { vec![] } else { client_mws }, api, mws, start, body, graph, method, reader })
         .boxed()
 }
 
 fn reproducer(sig: &str) -> Option<Case> {
     let chain = BTreeMap::from([("http://h/a".to_string(), Answer::Status(302, Some("d/e/f".into()))), ("http://h/d/e/f".to_string(), Answer::Status(307, Some("c2".into())))]);
     match sig {
-        "command-api-ignores-middleware" => Some(Case { api: Api::CommandBuild, client_mws: vec![], mws: vec![Mw::AddHeader], start: "http://h/a".into(), body: b"x".to_vec(), graph: BTreeMap::new(), method: 0 }),
-        "redirect-relative-base-stale" => Some(Case { api: Api::CapabilitySend, client_mws: vec![], mws: vec![Mw::Redirect(3)], start: "http://h/a".into(), body: b"x".to_vec(), graph: chain, method: 0 }),
+        "command-api-ignores-middleware" => Some(Case { api: Api::CommandBuild, client_mws: vec![], mws: vec![Mw::AddHeader], start: "http://h/a".into(), body: b"x".to_vec(), graph: BTreeMap::new(), method: 0, reader: 0 }),
+        "redirect-relative-base-stale" => Some(Case { api: Api::CapabilitySend, client_mws: vec![], mws: vec![Mw::Redirect(3)], start: "http://h/a".into(), body: b"x".to_vec(), graph: chain, method: 0, reader: 0 }),
         _ => None,
     }
 }
@@ -541,6 +553,11 @@ pub fn main(mode: Mode) {
                 None => "issue:none",
             },
             if c.method == 0 { "method:post" } else { "method:other" },
+            match c.reader % 3 {
+                0 => "body:bytes",
+                1 => "body:reader-of-known-length",
+                _ => "body:reader-of-unknown-length",
+            },
         ];
         match judge(c) {
             Ok(()) => {
@@ -593,7 +610,7 @@ pub fn main(mode: Mode) {
                 Report {
                     prop,
                     tier,
-                    rule: "client-level stacks of 0-2 and per-request stacks of 0-4 middlewares (pass / short-circuit / request-issuing through the inner client, also with 0-2 middlewares of its own on the issued request, sent by await / send(built) / send(clone of built) / recv_bytes / header-adding / retrying = running the rest of the chain 2-3 times / Redirect with attempts 0..=255 at any position), POST, GET, PUT, DELETE, PATCH or OPTIONS with a body and a header of the app to one of 8 URLs, a served graph answering each URL with a status and an optional Location (absolute, relative, ../, /rooted, query-only, scheme-relative, empty, invalid, missing) or a shell error, chains of two relative hops built on purpose; capability send, capability send_async and command build; non-trivial = >= 2 middleware kinds in the stack, or a followed chain of >= 2 hops with a relative one under Redirect(>=2); distinct = distinct case",
+                    rule: "client-level stacks of 0-2 and per-request stacks of 0-4 middlewares (pass / short-circuit / request-issuing through the inner client, also with 0-2 middlewares of its own on the issued request, sent by await / send(built) / send(clone of built) / recv_bytes / header-adding / retrying = running the rest of the chain 2-3 times / Redirect with attempts 0..=255 at any position), POST, GET, PUT, DELETE, PATCH or OPTIONS with a body (bytes, or a reader of known or unknown length) and a header of the app to one of 8 URLs, a served graph answering each URL with a status and an optional Location (absolute, relative, ../, /rooted, query-only, scheme-relative, empty, invalid, missing) or a shell error, chains of two relative hops built on purpose; capability send, capability send_async and command build; non-trivial = >= 2 middleware kinds in the stack, or a followed chain of >= 2 hops with a relative one under Redirect(>=2); distinct = distinct case",
                     assumptions: vec![
                         "expected URL of a hop = RFC 3986 resolution of Location against the URL that answered (url::Url::join)".into(),
                         "a redirect status without Location is unspecified: only the bounds (probes <= attempts, one real request, one outcome) are checked".into(),
